@@ -501,9 +501,20 @@ fn gen_project(rng: &mut Rng, out: &mut Out) -> Project {
         let b0 = blk(&n(0), vec![], vec![j_cbranch(&format!("{}_j0", n(0)), &n(1), cond), j_branch(&format!("{}_j1", n(0)), &n(2))]);
         subs[i] = sub(&format!("f{}", i), &format!("fn{}", i), vec![b0, taken, fall], None);
     }
+    let mut extra_externs: Vec<ExternSymbol> = Vec::new();
+    if rng.chance(1, 4) {
+        // replace the first function that is not the guard function by a "maybe-stack store" function
+        out.count("fn:maybe-stack");
+        let i = if n_subs >= 2 { rng.below(n_subs as u64 - 1) as usize } else { 0 };
+        let other = rng.below(6);
+        let stored = PARAM[1 + rng.below(5) as usize];
+        let stored = if stored == "RDX" && other == 4 { "RSI" } else { stored };
+        subs[i] = maybe_stack_sub(i, other, rng.chance(1, 2), rng.below(2), stored, &mut extra_externs);
+    }
     let externs: Vec<ExternSymbol> = exts
         .iter()
         .map(|s| extern_symbol(&format!("x_{}", s.name), s.name, s.params.clone(), vec![reg_arg("RAX")], s.no_return))
+        .chain(extra_externs.into_iter())
         .collect();
     project_x64(program(subs, externs, vec![tid("f0")]))
 }
@@ -576,6 +587,96 @@ fn directed_projects() -> Vec<Project> {
         }
     }
     v.extend(directed_guard_projects());
+    v.extend(directed_maybe_stack_projects());
+    v
+}
+
+/// one function storing the bare register `stored` through `RAX`, where `RAX` is a stack slot on one
+/// arm of a diamond (or before a loop) and `other` on the other arm; `stored` is read nowhere else
+fn maybe_stack_sub(i: usize, other: u64, stack_on_taken: bool, shape: u64, stored: &str, externs: &mut Vec<ExternSymbol>) -> Term<Sub> {
+    let n = |b: usize| format!("f{}_b{}", i, b);
+    let ret = |b: usize| j_return(&format!("{}_j0", n(b)), Expression::Var(tmp("$ret", 8)));
+    let stack_val = || e_bin(BinOpType::IntAdd, e_var("RSP", 8), e_const((-16i64) as u64, 8));
+    let other_defs = |t: &str| -> Vec<Term<Def>> {
+        match other {
+            0 => vec![d_assign(t, var("RAX", 8), e_var("RDI", 8))],
+            1 => vec![d_assign(t, var("RAX", 8), e_bin(BinOpType::IntAdd, e_var("RDI", 8), e_const(8, 8)))],
+            2 => vec![d_assign(t, var("RAX", 8), e_const(0x601000, 8))],
+            4 => vec![d_load(t, var("RAX", 8), e_var("RDX", 8))],
+            5 => vec![d_assign(t, var("RAX", 8), e_bin(BinOpType::IntMult, e_var("RDI", 8), e_const(8, 8)))],
+            _ => vec![], // 3: call result, see below
+        }
+    };
+    let store = |t: &str| d_store(t, e_var("RAX", 8), e_var(stored, 8));
+    if other == 3 && !externs.iter().any(|x| x.name == "ext_ret") {
+        externs.push(extern_symbol("x_ext_ret", "ext_ret", vec![], vec![reg_arg("RAX")], false));
+    }
+    let blocks = match shape {
+        // diamond
+        0 => {
+            let (t_arm, f_arm) = if stack_on_taken { (1usize, 2usize) } else { (2, 1) };
+            // block 1 = taken side, block 2 = fall-through side
+            let mk_arm = |b: usize, is_stack: bool| {
+                if is_stack {
+                    blk(&n(b), vec![d_assign(&format!("{}_d0", n(b)), var("RAX", 8), stack_val())], vec![j_branch(&format!("{}_j0", n(b)), &n(3))])
+                } else if other == 3 {
+                    blk(&n(b), vec![], vec![j_call(&format!("{}_j0", n(b)), "x_ext_ret", Some(&n(3)))])
+                } else {
+                    blk(&n(b), other_defs(&format!("{}_d0", n(b))), vec![j_branch(&format!("{}_j0", n(b)), &n(3))])
+                }
+            };
+            vec![
+                blk(&n(0), vec![], vec![j_cbranch(&format!("{}_j0", n(0)), &n(1), e_var("ZF", 1)), j_branch(&format!("{}_j1", n(0)), &n(2))]),
+                mk_arm(1, t_arm == 1),
+                mk_arm(2, t_arm == 2 && f_arm == 1 || t_arm == 2),
+                blk(&n(3), vec![store(&format!("{}_d0", n(3)))], vec![ret(3)]),
+            ]
+        }
+        // loop: stack slot on entry, `other` from the second iteration on
+        _ => {
+            let mut body = vec![store(&format!("{}_d0", n(1)))];
+            let mut jmps = vec![j_cbranch(&format!("{}_j0", n(1)), &n(1), e_var("ZF", 1)), j_branch(&format!("{}_j1", n(1)), &n(2))];
+            if other == 3 {
+                // the call result cannot be produced inside the block: use the parameter pointer instead
+                body.extend(vec![d_assign(&format!("{}_d1", n(1)), var("RAX", 8), e_var("RDI", 8))]);
+            } else {
+                body.extend(other_defs(&format!("{}_d1", n(1))));
+            }
+            let _ = &mut jmps;
+            vec![
+                blk(&n(0), vec![d_assign(&format!("{}_d0", n(0)), var("RAX", 8), stack_val())], vec![j_branch(&format!("{}_j0", n(0)), &n(1))]),
+                blk(&n(1), body, jmps),
+                blk(&n(2), vec![], vec![ret(2)]),
+            ]
+        }
+    };
+    sub(&format!("f{}", i), &format!("fn{}", i), blocks, None)
+}
+
+/// Directed maybe-stack shapes and controls for the spill rule: a bare parameter register stored
+/// through a pointer that is a stack slot on one path and a parameter pointer / constant / call result
+/// / product on another must be reported; pure stack slots are spills (nothing demanded), pure
+/// parameter pointers are reads.
+fn directed_maybe_stack_projects() -> Vec<Project> {
+    let mut v = Vec::new();
+    for other in 0..6u64 {
+        for stack_on_taken in [true, false] {
+            for shape in 0..2u64 {
+                let mut externs = Vec::new();
+                let s = maybe_stack_sub(0, other, stack_on_taken, shape, "RSI", &mut externs);
+                v.push(project_x64(program(vec![s], externs, vec![tid("f0")])));
+            }
+        }
+    }
+    // controls
+    let ret = || j_return("f0_b0_j0", Expression::Var(tmp("$ret", 8)));
+    let one = |defs: Vec<Term<Def>>| project_x64(program(vec![sub("f0", "fn0", vec![blk("f0_b0", defs, vec![ret()])], None)], vec![], vec![tid("f0")]));
+    let slot = e_bin(BinOpType::IntAdd, e_var("RSP", 8), e_const((-16i64) as u64, 8));
+    v.push(one(vec![d_store("f0_b0_d0", slot.clone(), e_var("RSI", 8))]));
+    v.push(one(vec![d_assign("f0_b0_d0", var("RAX", 8), slot), d_store("f0_b0_d1", e_var("RAX", 8), e_var("RSI", 8))]));
+    v.push(one(vec![d_store("f0_b0_d0", e_var("RDI", 8), e_var("RSI", 8))]));
+    v.push(one(vec![d_store("f0_b0_d0", e_bin(BinOpType::IntAdd, e_var("RDI", 8), e_const(8, 8)), e_var("RSI", 8))]));
+    v.push(one(vec![d_store("f0_b0_d0", e_const(0x601000, 8), e_var("RSI", 8))]));
     v
 }
 
